@@ -190,6 +190,33 @@ def twocol_query(rng, n):
     return {"meta": meta, "sql": sql, "rows": rows}
 
 
+def rawvals_query(rng, n):
+    """value-carrying aggregates (collect, first_value, last_value, count) hand texts on as they are - also texts that look like numbers
+    ("007"), on every window path"""
+    glob = rng.random() < 0.6
+    fns = rng.sample(["collect", "first_value", "last_value", "count", "collect"], 3)
+    items, aggs = [], []
+    for k, fn in enumerate(fns):
+        items.append("%s(u) AS a%d" % (fn, k)); aggs.append({"al": "a%d" % k, "fn": fn, "arg": {"k": "col", "c": "u"}, "p": 0})
+    rows, rid = [], 0
+    for b in range(3):
+        for k in range(n):
+            rid += 1
+            r = {"id": rid, "g": "a"}
+            x = rng.choice(["007", "12", "abc", "1e2", "0x10", 5, None, MISSING])
+            if x != MISSING: r["u"] = x
+            rows.append(r)
+    sel = ", ".join(items)
+    if glob:
+        sql = "SELECT g, %s FROM stream GROUP BY g, GLOBAL WINDOW TRIGGER WHEN COUNT(*) >= %d" % (sel, n)
+        meta = {"fam": "batch", "carrier": "global", "n": 0, "gcols": ["g"], "gout": ["g"], "aggs": aggs,
+                "pred": {"o": "cmp", "fn": "count_star", "arg": {"k": "star"}, "op": ">=", "lit": n * 10000}}
+    else:
+        sql = "SELECT g, %s FROM stream GROUP BY g, CountingWindow(%d)" % (sel, n)
+        meta = {"fam": "batch", "carrier": "counting", "n": n, "gcols": ["g"], "gout": ["g"], "aggs": aggs}
+    return {"meta": meta, "sql": sql, "rows": rows, "noretype": True}
+
+
 def run(tier):
     res = vlib.Result("C03", tier)
     rng = random.Random(vlib.seed())
@@ -252,6 +279,8 @@ def run(tier):
         scen.append(poison_query(rng, rng.choice([2, 3, 4])))
     for _ in range(80 if quick else 3000):
         scen.append(twocol_query(rng, rng.choice([2, 3, 4])))
+    for _ in range(60 if quick else 2000):
+        scen.append(rawvals_query(rng, rng.choice([2, 3, 4])))
     seqfam.run_scenarios(res, scen, "TraceBatch", tag="agg", relayout_p=0.3, retype_p=0.3, rename_p=0.3)
     res.cov["exhaustive"] = not quick
     res.cov["distinct_nontrivial"] = len({json.dumps(s["rows"], sort_keys=True) + s["sql"] for s in scen})
